@@ -605,18 +605,20 @@ impl AssemblyCode {
                             flags = FlagsState::Y;
                         }
                         AsmMnemonic::DEC | AsmMnemonic::INC => {
+                            // A memory cell changes: like a store, any register known to
+                            // hold a memory operand (which may alias it) is no longer known
                             if let Some(v) = &accumulator {
-                                if v.eq(&inst.dasm_operand) {
+                                if !v.starts_with("#") {
                                     accumulator = None;
                                 }
                             }
                             if let Some(v) = &x_register {
-                                if v.eq(&inst.dasm_operand) {
+                                if !v.starts_with("#") {
                                     x_register = None;
                                 }
                             }
                             if let Some(v) = &y_register {
-                                if v.eq(&inst.dasm_operand) {
+                                if !v.starts_with("#") {
                                     y_register = None;
                                 }
                             }
@@ -703,7 +705,28 @@ impl AssemblyCode {
                         | AsmMnemonic::EOR
                         | AsmMnemonic::AND
                         | AsmMnemonic::ORA => accumulator = None,
-                        AsmMnemonic::LSR | AsmMnemonic::ASL => accumulator = None,
+                        AsmMnemonic::LSR | AsmMnemonic::ASL | AsmMnemonic::ROL | AsmMnemonic::ROR => {
+                            if inst.dasm_operand.is_empty() {
+                                accumulator = None;
+                            } else {
+                                // Shift/rotate of a memory cell: same as INC/DEC
+                                if let Some(v) = &accumulator {
+                                    if !v.starts_with("#") {
+                                        accumulator = None;
+                                    }
+                                }
+                                if let Some(v) = &x_register {
+                                    if !v.starts_with("#") {
+                                        x_register = None;
+                                    }
+                                }
+                                if let Some(v) = &y_register {
+                                    if !v.starts_with("#") {
+                                        y_register = None;
+                                    }
+                                }
+                            }
+                        }
                         AsmMnemonic::PLA | AsmMnemonic::PHA => accumulator = None,
                         AsmMnemonic::JSR | AsmMnemonic::JMP => {
                             accumulator = None;
